@@ -22,7 +22,7 @@ SUBGRIDS = {"quick": 2, "thorough": 3}
 EXEC = {"quick": 192, "thorough": 1600}
 RULE = ("ParameterGrid laws, exhaustive: every grid made of 1..G sub-grids (G=2 quick, 3 thorough; a single dict also "
         "passed bare), each sub-grid any subset of the keys {a,b,c} (incl. the empty dict) with 1..3 values per key held "
-        "in lists, tuples or 1-D arrays; oracle = reference union of itertools.product over sorted keys: len(g) == "
+        "in lists, tuples or 1-D arrays, keys written in alphabetical, reversed or rotated order; oracle = reference union of itertools.product over sorted keys: len(g) == "
         "len(list(g)) == len(ref), list(g) == ref in order, g[i] == list(g)[i] for all i, g[len(g)] raises IndexError; "
         "malformed grids (scalar, string, empty list, 2-D array, non-dict) are rejected. execute/resolve, model-based: a "
         "scripted optimizer logs every optimize() call (its current parameters, task, mode, workers) to an append-only "
@@ -52,12 +52,18 @@ def subgrid_shapes():
 
 
 def materialise(shape, variant):
-    g = {}
+    items = {}
     for i, (k, n) in enumerate(sorted(shape.items())):
         vals = VALUES[k][:n]
         kind = (variant + i) % 3
-        g[k] = list(vals) if kind == 0 else tuple(vals) if kind == 1 else np.array(vals)
-    return g
+        items[k] = list(vals) if kind == 0 else tuple(vals) if kind == 1 else np.array(vals)
+    # the order in which the user happened to write the keys must not matter: alphabetical, reversed or rotated
+    keys = sorted(items)
+    if variant % 3 == 1:
+        keys = keys[::-1]
+    elif variant % 3 == 2:
+        keys = keys[1:] + keys[:1]
+    return {k: items[k] for k in keys}
 
 
 def reference(subgrids):
